@@ -12,6 +12,7 @@ mod lexer;
 mod nodes;
 mod decode;
 mod values;
+mod channels;
 mod term;
 mod dump;
 mod symm;
@@ -35,6 +36,7 @@ fn main() {
         Some("ops-scalar-op") => ops::scalar_op(&v),
         Some("ops-search") => ops::search(&v),
         Some("symm-search") => symm::search(&v),
+        Some("channels-search") => channels::search(&v),
         Some("term-search") => term::search(&v),
         Some("dump-search") => dump::search(&v),
         Some("values-search") => values::search(&v),
